@@ -182,6 +182,9 @@ pub fn run(b: &mut Built, op: &Op, pfx: &str, env: Envelope) -> StepOut {
                 "exp" => 1,
                 _ => 1_000,
             };
+            // SYMX_FIXED_SCALE multiplies every fixed input (concrete build comparison beyond 2^64 / 2^96)
+            let scale: u128 = std::env::var("SYMX_FIXED_SCALE").ok().and_then(|v| v.parse().ok()).unwrap_or(1);
+            let c = c.saturating_mul(scale);
             inputs.push((full, c.to_string()));
             return Uint128::new(c);
         }
